@@ -298,11 +298,6 @@ def base_programs():
 # ------------------------------------------------------------------------------------------------
 # variants: one annotation applied at one insertion point
 # ------------------------------------------------------------------------------------------------
-def wrap_variants(recipe, kinds=("comment", "pragma", "nonce")):
-    """(description, path) for every node that a wrapper can be put around"""
-    return all_paths(recipe)
-
-
 def seq_insert_points(recipe):
     """(path_of_seq, index) for every Seq and every position 1..len (before each statement and after the last)"""
     out = []
